@@ -174,8 +174,9 @@ check('C18', 'xls',
       'assumptions; distinct column titles.',
       'DESIGN.md section 4, C18')
 
-ENGINES['ppobj'] = ('specs/ppobj', ['C11'], 'PPJson.tla (printer acceptor, pushdown machine over lexical items), '
-                    'PPJsonCases.tla (shape builder); driver harness/drivers/c11.py')
+ENGINES['ppobj'] = ('specs/ppobj', ['C11', 'C12', 'C13'], 'PPJson.tla (printer acceptor, pushdown machine over lexical items), '
+                    'PPJsonCases.tla (shape builder), PPTable.tla (table layout acceptor), PPTableCases.tla (table builder), '
+                    'PPTableFmt.tla (format life cycle); drivers harness/drivers/c11.py, c12.py, c13.py')
 check('C11', 'ppobj',
       'TLA+ printer acceptor (pushdown machine, one action per lexical item) judges the real PrettyPrinter output for '
       'values whose rendered lengths sweep the layout decisions; value shapes come from a TLC builder',
@@ -187,6 +188,19 @@ check('C11', 'ppobj',
       'literal_eval agreement is recorded as a cross-check).',
       'Trusted: TLC, the lexer in the driver. Layout thresholds themselves are not part of the property.',
       'DESIGN.md section 4, C11')
+
+check('C12', 'ppobj',
+      'TLA+ layout acceptor (one action per printed line) judges real PPTable output for TLC-built abstract tables',
+      'All one-column tables (7 width ranges incl. 0 and min=max, break-by, plain and enum columns in every modifier, '
+      '0..1 (quick) / 0..2 (thorough) records over 7 cell-length classes, 7 limit settings, header/footer absent, short '
+      'and longer than the table) and TLC simulations of tables with up to 3 columns and 7 records are materialised '
+      'with values of mixed Python types (incl. border characters) and printed; TLC accepts the lines only if the '
+      'border fixes widths within [min,max], every row has separators under the + marks, every cell is the desired '
+      'text padded or a prefix plus dots, break lines sit exactly where the break-by key changes, limits show exactly '
+      'the first n / last m lines and skipped + shown = total, header and footer are clipped to the table.',
+      'Trusted: TLC; desired cell texts computed by the driver (str(value), documented enum forms). Cell values '
+      'without newlines; one-line titles.',
+      'DESIGN.md section 4, C12')
 
 ALL = ['C%02d' % i for i in range(1, 21)]
 
